@@ -61,7 +61,7 @@ def _gen_version_h(dst_inc):
 def include_flags(root):
     return ["-I" + os.path.join(REPO, "include"), "-I" + os.path.join(root, "geninc"),
             "-I" + os.path.join(REPO, "subprojects/hinnant-date/include"),
-            "-I" + os.path.join(VERIF, "harness")]
+            "-I" + os.path.join(VERIF, "harness"), "-I" + REPO]
 
 
 def _run(cmd, what):
@@ -72,16 +72,22 @@ def _run(cmd, what):
 
 
 def _prune(keep):
+    """Bound disk use: keep the 5 most recently used trees; never touch one used in the last 30 min
+    (a concurrent check may be running from it)."""
     if not os.path.isdir(BUILD):
         return
     ds = [d for d in os.listdir(BUILD) if os.path.isdir(os.path.join(BUILD, d)) and d != keep]
     ds.sort(key=lambda d: os.path.getmtime(os.path.join(BUILD, d)))
-    for d in ds[:-1]:  # keep at most one older tree next to the current one
-        shutil.rmtree(os.path.join(BUILD, d), ignore_errors=True)
+    now = time.time()
+    for d in ds[:-4]:
+        if now - os.path.getmtime(os.path.join(BUILD, d)) > 1800:
+            shutil.rmtree(os.path.join(BUILD, d), ignore_errors=True)
 
 
 def tree_root():
     root = os.path.join(BUILD, tree_hash())
+    if os.path.isdir(root):
+        os.utime(root, None)
     if not os.path.isdir(os.path.join(root, "geninc")):
         os.makedirs(root, exist_ok=True)
         _gen_version_h(os.path.join(root, "geninc"))
